@@ -151,7 +151,7 @@ export function* generate({ tier, seed }) {
     for (const sp of SPELLINGS) for (const sfx of SUFFIXES) for (const ns of NSARGS) for (const form of VALUE_FORMS) {
       const g = emit([sp, sfx, ns, form, 'element', 'none'], [OPTS[0]]); if (g) yield g;
     }
-    for (const c of rng.shuffle(all).slice(0, 1500)) { const g = emit(c, [rng.pick(OPTS)]); if (g) yield g; }
+    for (const c of rng.shuffle(all).slice(0, 12000)) { const g = emit(c, [rng.pick(OPTS)]); if (g) yield g; }
   }
   // v-html / v-text
   for (const which of ['html', 'text']) for (const form of HT_FORMS) for (const hk of HOSTKINDS) for (const nb of ['none', 'attrBefore', 'attrAfter', 'spreadBefore', 'secondDir', 'class']) for (const si of [0, 1]) {
@@ -204,7 +204,7 @@ export async function check(group, records) {
 
 export function meta({ tier }) {
   return {
-    rule: 'G-DIR: spelling (10: v-kebab, v-multi-word, vCamel, vCamelMultiWord, upper-case first letter, v-show/vShow, ...) x `_modifier` suffix lists (4) x `:arg` (3) x value form (11: expr, call, [v], [v,"arg"], [v,argExpr], [v,[mods]], [v,[]], [v,"arg",[mods]], [v,argExpr,[mods]], string, absent) x host {element, component} x neighbours (7); combinations the statement does not decide (suffixes or :arg together with an array form that has its own argument/modifier slots) are skipped. ' + (tier === 'thorough' ? 'Full product x 3 option sets.' : 'Full spelling x suffix x arg x form product on a bare element + 1500 sampled others.') + ' v-html / v-text: 2 spellings x 5 value forms x 2 hosts x 6 neighbours. distinct_nontrivial = distinct feature tuples.',
+    rule: 'G-DIR: spelling (10: v-kebab, v-multi-word, vCamel, vCamelMultiWord, upper-case first letter, v-show/vShow, ...) x `_modifier` suffix lists (4) x `:arg` (3) x value form (11: expr, call, [v], [v,"arg"], [v,argExpr], [v,[mods]], [v,[]], [v,"arg",[mods]], [v,argExpr,[mods]], string, absent) x host {element, component} x neighbours (7); combinations the statement does not decide (suffixes or :arg together with an array form that has its own argument/modifier slots) are skipped. ' + (tier === 'thorough' ? 'Full product x 3 option sets.' : 'Full spelling x suffix x arg x form product on a bare element + 12000 sampled others.') + ' v-html / v-text: 2 spellings x 5 value forms x 2 hosts x 6 neighbours. distinct_nontrivial = distinct feature tuples.',
     exhaustive: [tier === 'thorough' ? 'spelling x suffixes x arg x form x host x neighbour' : 'spelling x suffixes x arg x form on a bare element', 'v-html/v-text product'],
     assumptions: ['`void 0` argument is the same as no argument', 'modifiers are compared as a set of keys mapped to true'],
   };
